@@ -512,7 +512,7 @@ def make_cases(ctx, ci, cfg, clean):
             cases.append({"id": None, "cfg": cfg, "steps": steps, "worker": worker, "kind": kind, "action": a})
     rng = ctx.rng
     # retries with further faults: first fault, a retry with a second fault, a retry with a third, a clean retry
-    n_multi = (len(pts) * 2) if tier == "thorough" else max(6, len(pts) // 5)
+    n_multi = (len(pts) // 2) if tier == "thorough" else max(6, len(pts) // 5)
     keys = clean["keys"]
     extra_pts = [((k, "rmtree", "", 0), "rmtree") for k in keys] + [((k + "_temp", "rmtree", "", 0), "rmtree") for k in keys]
     all_pts = [(s, kd) for s, kd, _ in pts] + extra_pts
@@ -671,6 +671,8 @@ def run(ctx):
     dist = {}
     crossx = []
     try:
+        # warm up once, here: the pool workers are forked from this process and inherit the compiled kernels
+        runner.warmup(TMP)
         with ProcessPoolExecutor(max_workers=nproc, mp_context=mp.get_context("fork"), initializer=_init_worker) as pool:
             # corpus first
             for obj in load_corpus():
@@ -723,7 +725,7 @@ def run(ctx):
             inflight = set()
             exhausted = False
             while True:
-                while not exhausted and len(inflight) < 2 * nproc:
+                while not exhausted and len(inflight) < nproc + 2:
                     if time.time() - t_sweep > budget:
                         exhausted = True
                         break
@@ -812,7 +814,8 @@ def crosscheck(ctx, crossx):
                 allow = not vb[si].get(runner.key_dtype(k), False)
                 lines.append(line_replay(allow, clean["expected"][k], fs0, aevs))
                 metas.append((allow, clean["expected"][k], fs0, aevs))
-    lines, metas = lines[:20], metas[:20]
+    n_eq = 40 if ctx.thorough else 12
+    lines, metas = lines[:n_eq], metas[:n_eq]
     outs = lib.run_model("C04", lines) if lines else []
     for (allow, expected, fs0, aevs), out in zip(metas, outs):
         m = parse_out(out)
